@@ -1,0 +1,44 @@
+//go:build verif
+
+// Contracts for the deductive checker in /verif (comment-only; compiled only with -tags verif,
+// and even then it contains no code). Keyed by function name and loop ordinal.
+
+package destination
+
+// ---------------------------------------------------------------- bufwriter.go (C05)
+// view(): every byte accepted and not yet lost = what the underlying writer took ++ what is buffered.
+//@ spec (b *Writer) view() bytes := b.wr.stream ++ b.buf[0:b.n][..]
+//@ pred (b *Writer) rep() := 0 <= b.n && b.n <= len(b.buf) && len(b.buf) > 0 && b.wr != nil
+//@
+//@ func (b *Writer) flush() error
+//@   property C05
+//@   requires b.rep()
+//@   modifies b.n, b.err, b.buf[..], b.wr.stream
+//@   ensures[rep]      b.rep()
+//@   ensures[view]     b.view() == old(b.view())
+//@   ensures[empties]  result == nil ==> b.n == 0
+//@   ensures[sticky]   old(b.err) != nil ==> result == old(b.err) && b.wr.stream == old(b.wr.stream)
+//@   ensures[err_set]  result != nil ==> b.err != nil
+//@   ensures[err_kept] result == nil ==> b.err == old(b.err)
+//@
+//@ func (b *Writer) Flush() error
+//@   property C05
+//@   requires b.rep()
+//@   modifies b.n, b.err, b.buf[..], b.wr.stream
+//@   ensures[rep]      b.rep()
+//@   ensures[view]     b.view() == old(b.view())
+//@   ensures[empties]  result == nil ==> b.n == 0
+//@
+//@ func (b *Writer) Write(p []byte) (nn int, err error)
+//@   property C05
+//@   requires b.rep()
+//@   requires p.arr != b.buf.arr
+//@   modifies b.n, b.err, b.buf[..], b.wr.stream
+//@   ensures[rep]      b.rep()
+//@   ensures[count]    0 <= nn && nn <= len(p)
+//@   ensures[view]     b.view() == old(b.view()) ++ p[0:nn][..]
+//@   ensures[complete] err == nil ==> nn == len(p)
+//@   loop 1:
+//@     invariant[rep]   b.rep() && b.buf == old(b.buf) && b.wr == old(b.wr)
+//@     invariant[split] 0 <= nn && nn + len(p) == len(old(p)) && p.arr == old(p).arr && p.off == old(p).off + nn
+//@     invariant[view]  b.view() == old(b.view()) ++ old(p)[0:nn][..]
